@@ -37,6 +37,8 @@ def Y0_NEGX(case):
 
 class Prop(BaseProp):
     coq_targets = ['ND/Proofs/C10_proofs.vo']
+    extra_model_targets = ['gen/Gen_Bessel.vo', 'ND/Hand/Bessel.vo']
+    extra_imports = 'From ND Require Import Bessel.\nFrom NDgen Require Import Gen_Bessel.'
     n_quick, n_thorough = 700, 12000
 
     def cases(self, rng, n):
@@ -47,8 +49,11 @@ class Prop(BaseProp):
             specs.append(('powi', e))
         for e in (0.0, 1.0, 2.0, 3.0, 4.0, 5.0, 7.0, 1.5, 2.5, 3.5, 4.5, 6.5, 7.5, 9.5):
             specs.append(('powf', e))
-        for f in ('sph_j0', 'sph_j1', 'sph_j2', 'exp_m1', 'ln_1p'):
+        for f in ('sph_j0', 'sph_j1', 'sph_j2', 'exp_m1', 'ln_1p', 'bessel_j0', 'bessel_j1', 'bessel_j2'):
             specs.append((f, None))
+        import props.c14 as c14
+        Tall = vlib.types()
+        btys = [Tall[t] for t in (c14.BESSEL_TYPES_QUICK if self.tier == 'quick' else c14.BESSEL_TYPES_ALL)]
         for ax in ('y0+', 'y0-', 'x0+', 'x0-'):
             specs.append(('atan2', ax))
         k = 0
@@ -58,6 +63,8 @@ class Prop(BaseProp):
             k += 1
             op, e = spec
             w = 64
+            if op.startswith('bessel'):      # BesselDual needs Copy: the statically sized types
+                ty = btys[k % len(btys)]
             x0 = rng.choice(TINY) if k % 3 else rng.choice([0.0, -0.0])
             if op == 'powi':
                 a = genvals.gen_value(rng, ty, genvals.leaf_rand, re_leaf=lambda r: x0)
@@ -139,6 +146,10 @@ class Prop(BaseProp):
         conv = lambda b: pyjet.mpf_of_bits(b, w)
         if impl == 'panic':
             return Violation('counterexample', '%s on %s panics at a special point' % (case.op, case.ty), case=case, obtained='panic')
+        if case.op.startswith('bessel'):
+            # cylindrical Bessel functions: the accuracy model of C14 (derivatives of a rational approximation), every part finite
+            import props.c14 as c14
+            return c14.Prop.oracle(self, case, impl)
         ref, scale = self.reference(case, conv)
         fmin = mpf(2) ** -1022
         fmax = mpf(2) ** 1024
@@ -176,5 +187,5 @@ class Prop(BaseProp):
 
     def rule_text(self):
         return ('enumerated special points x every type of the tier matrix: powi n in {0..6,10} and powf with integer or beyond-order exponents at +-0, the smallest '
-                'subnormals and tiny normals; sph_j0/1/2, exp_m1, ln_1p at the same points; atan2 on both axes (both signs, signed zeros) and their immediate neighbours; '
+                'subnormals and tiny normals; sph_j0/1/2, bessel_j0/1/2 (statically sized types), exp_m1, ln_1p at the same points; atan2 on both axes (both signs, signed zeros) and their immediate neighbours; '
                 'derivative parts independent random; oracle: every part finite and within 64 u Sum|terms| of the mathematical jet (series / closed forms in 60-digit arithmetic)')
